@@ -169,6 +169,20 @@ class CoroRef:
                     r = None
                 if r is not None:
                     return r
+            elif k == "match":
+                # same as an if / elif chain on d == k: evaluating it is an action of the process
+                self.fresh = False
+                dv = self.inp["d"]
+                r = None
+                for kk, b in s[1]:
+                    if dv == kk:
+                        r = yield from self.block(b)
+                        break
+                else:
+                    if s[2] is not None:
+                        r = yield from self.block(s[2])
+                if r is not None:
+                    return r
             elif k == "while":
                 if not self.fresh:
                     yield
